@@ -6,6 +6,7 @@ use crate::driver::{Cfg, Cmd, Level, LoggerKind, Profile};
 use crate::engine::{self, Item, Report, RunOpts, Sink};
 use crate::corpus;
 
+pub mod apps;
 pub mod c02;
 pub mod c03;
 pub mod c04;
@@ -13,6 +14,7 @@ pub mod c06;
 pub mod c07;
 pub mod c10;
 pub mod c11;
+pub mod c12;
 pub mod c05;
 
 pub fn run(prop: &str, thorough: bool) -> Option<Report> {
@@ -29,6 +31,13 @@ pub fn run(prop: &str, thorough: bool) -> Option<Report> {
         "C09" => c07::run_c09(&mut rep, thorough),
         "C10" => c10::run(&mut rep, thorough),
         "C11" => c11::run(&mut rep, thorough),
+        "C12" => c12::run(&mut rep, thorough),
+        "C13" => apps::run_c13(&mut rep, thorough),
+        "C14" => apps::run_c14(&mut rep, thorough),
+        "C15" => apps::run_c15(&mut rep, thorough),
+        "C16" => apps::run_c16(&mut rep, thorough),
+        "C17" => apps::run_c17(&mut rep, thorough),
+        "C18" => apps::run_c18(&mut rep, thorough),
         _ => return None,
     }
     Some(rep)
